@@ -159,7 +159,7 @@ class dotdict_base( object ):
                         #logging.info( '_resolve unbalanced %r.%r"' % ( mine, rest ))
                         if not rest:
                             raise KeyError( "unbalance brackets in %s" % key )
-                        ext,rest= rest.split( '.', 1 )
+                        ext,rest= rest.split( '.', 1 ) if '.' in rest else (rest,None)
                         mine   += '.' + ext
                 break
             mine		= rest
